@@ -89,7 +89,7 @@ def run(ctx):
     outm = os.path.join(ctx.scratch, "taint_main.ndjson")
     resm = ctx.go_test("cmd/application", ["common/vcommon_test.go", "cmd_application/taint_verif_test.go"], "main",
                        "^TestVerifTaintCases$", env={"VERIF_IN": inp, "VERIF_OUT": outm, "VERIF_WORKERS": 256 if thorough else 96},
-                       timeout=1500)
+                       timeout=1500, extra_overlays=[("pkg/station/lib", ["pkg_station_lib/taint_bridge_verif.go"], "lib")])
     rows_m = ctx.read_results(outm)
     outl = os.path.join(ctx.scratch, "taint_lib.ndjson")
     resl = ctx.go_test("pkg/station/lib", ["common/vcommon_test.go", "pkg_station_lib/relay_verif_test.go",
